@@ -165,7 +165,15 @@ func (r *renderer) simple(node any, f func()) {
 	start := r.line
 	f()
 	end := r.line
+	seen := map[any]bool{}
 	for _, n := range r.pending {
+		if seen[n] {
+			continue
+		}
+		seen[n] = true
+		if _, dup := r.lines[n]; dup {
+			panic(fmt.Sprintf("mlua.Render: AST node %T %+v is shared between two statements (positions would be ambiguous)", n, n))
+		}
 		p := &Pos{From: start, To: end}
 		if start == end {
 			p.Known, p.Line = true, start
